@@ -412,6 +412,19 @@ def _catalog():
         add("thrPO-" + meth, "threshold.get_threshold", "IML",
             lambda a, m, l, meth=meth: T.get_threshold(meth, T.TM_PER_OBJECT, a, mask=m, labels=l,
                                                        threshold_range_min=0, threshold_range_max=1))
+    for meth in T.TM_METHODS:
+        add("thr-" + meth + "-nomask", "threshold.get_threshold", "I",
+            lambda a, meth=meth: T.get_threshold(meth, T.TM_GLOBAL, a))
+        add("thrG-" + meth + "-nomask", "threshold.get_global_threshold", "I",
+            lambda a, meth=meth: T.get_global_threshold(meth, a))
+        add("thrG-" + meth, "threshold.get_global_threshold", "IM",
+            lambda a, m, meth=meth: T.get_global_threshold(meth, a, m))
+        add("thrA-" + meth + "-nomask", "threshold.get_threshold", "I",
+            lambda a, meth=meth: T.get_threshold(meth, T.TM_ADAPTIVE, a, threshold_range_min=0, threshold_range_max=1,
+                                                 adaptive_window_size=4))
+        add("thrPO-" + meth + "-nomask", "threshold.get_threshold", "IL",
+            lambda a, l, meth=meth: T.get_threshold(meth, T.TM_PER_OBJECT, a, labels=l, threshold_range_min=0,
+                                                    threshold_range_max=1))
     add("get_otsu_threshold", "threshold.get_otsu_threshold", "IM", T.get_otsu_threshold)
     add("get_mog_threshold", "threshold.get_mog_threshold", "IM", T.get_mog_threshold)
     add("get_mog_threshold-nomask", "threshold.get_mog_threshold", "I", T.get_mog_threshold)
@@ -482,13 +495,136 @@ def _lapjv(a):
     return LJ.lapjv(i.ravel(), j.ravel(), c)
 
 
+# --- calls synthesised from the signatures of ALL public functions of the eleven modules ----------------
+# parameter name -> role of the shared pool (array-like) ...
+NAME_ROLES = {
+    "image": "I", "img": "I", "data": "I", "pixel_data": "I", "input": "I", "a": "I", "ordering": "I",
+    "labels": "L", "mask": "M", "binary_image": "B", "skeleton": "B", "footprint": "f", "structure": "s",
+    "indexes": "x", "indices": "x", "idxs": "x", "index": "x", "table": "t", "kernel": "k", "offset": "o",
+    "weights": "W", "strel1": "T", "strel2": "S", "pattern": "T", "care": "s", "zernike_indexes": "z",
+    "costs": "c", "i": "a", "j": "b", "hull": "h", "point": "p", "pt": "p", "l0": "q", "l1": "r",
+    "hull_a": "h", "hull_b": "i", "center_a": "p", "center_b": "q", "p1": "h", "p2": "i", "p3": "j", "v": "j",
+    "pt0i": "d", "pt0j": "e", "pt1i": "g", "pt1j": "y", "ch_pts": "P", "ch_counts": "N", "chulls": "P", "counts": "N",
+    "x": "Q", "y": "R", "pixel_labels": "J", "cs": "D", "cs2": "D", "var": "D", "quantized_image": "B",
+}
+# ... or a scalar value
+NAME_SCALARS = {
+    "radius": 2, "iterations": 2, "sigma": 1.0, "size": 5, "bits": 7, "weight": 1.0, "min_radius": 1, "max_radius": 3,
+    "low_threshold": 0.1, "high_threshold": 0.2, "frequency": 4, "theta": 0.5, "angle": 30, "decay": 0.9,
+    "nlevels": 8, "scale_i": 1, "scale_j": 1, "sigma_spatial": 2.0, "sigma_range": 0.1, "percent": 50,
+    "minval": 0.25, "maxval": 4.0, "border_value": False, "threshold": 0.5, "distance": 3, "limit": 5,
+    "linelength": 3, "dAngle": 30, "resolution": 8, "nbins": 8, "bins": 64, "value": 1, "start_node": 0,
+    "lo": 3, "hi": 17, "sd": 1.5, "length": 5, "xoff": 1, "yoff": 2, "n": 2, "width": 3, "height": 5, "s": 3,
+    "block_shape": (3, 3), "adaptive_window_size": 4, "object_fraction": 0.3, "two_class_otsu": False,
+    "wants_compactness": True, "distance_transform": True, "ties_are_ok": True, "fast": False, "clip": False,
+    "wants_dual_variables": True, "levels": 16, "nangles": 8, "max_iter": 20, "gradient": 1,
+}
+# functions whose `image` is a binary image
+_BINARY_IMAGE = set("binary_thin binary_shrink_old binary_shrink convex_hull_image table_lookup branchpoints branchings "
+                    "bridge clean diag endpoints fill fill4 hbreak vbreak life majority remove spur thicken thin "
+                    "skeletonize poisson_equation".split())
+_AUTO_SKIP = {"cpmorphology.draw_line",                      # the documented in-place helper
+              "lapjv.slow_reduction_transfer", "lapjv.slow_augmenting_row_reduction", "lapjv.slow_augment",
+              # parameter names that mean something else here (bound by the hand-written calls instead)
+              "cpmorphology.grey_reconstruction", "cpmorphology.all_true", "cpmorphology.strel_pair",
+              "cpmorphology.ellipse_from_second_moments_ijv", "filter.cofactor_n", "filter.parity",
+              "otsu.entropy_score", "zernike.construct_zernike_polynomials"}
+_FUNC_ROLES = {"cpmorphology.relabel": {"image": "L"}, "otsu.running_variance": {"x": "D"},
+               "cpmorphology.convex_hull": {"fast": None}, "cpmorphology.convex_hull_ijv": {"fast": None}}
+
+
+def _auto_catalog():
+    """for every public function whose required parameters can be bound from the tables above: one call with
+    every optional argument left out, one per optional array argument supplied alone, one with all of them"""
+    import importlib
+    import inspect
+    import types
+    out = []
+    skipped = []
+    for m in MODS:
+        mod = importlib.import_module("centrosome." + m)
+        for name, fn in sorted(vars(mod).items()):
+            if name.startswith("_") or not isinstance(fn, types.FunctionType) or fn.__module__ != mod.__name__:
+                continue
+            q = "%s.%s" % (m, name)
+            if q in _AUTO_SKIP:
+                continue
+            try:
+                sig = inspect.signature(fn)
+            except (TypeError, ValueError):
+                continue
+            req, opt_arr, opt_sc = [], [], []
+            ok = True
+            used_roles = set()
+            for pn, prm in sig.parameters.items():
+                if prm.kind in (prm.VAR_POSITIONAL, prm.VAR_KEYWORD):
+                    continue
+                role = NAME_ROLES.get(pn)
+                if pn in _FUNC_ROLES.get(q, {}):
+                    role = _FUNC_ROLES[q][pn]
+                    if role is None:
+                        continue
+                if role == "I" and pn == "image" and name in _BINARY_IMAGE:
+                    role = "B"
+                if role is not None and role in used_roles:
+                    role = None                      # one array of the pool per parameter
+                if prm.default is inspect.Parameter.empty:
+                    if role is not None:
+                        req.append((pn, "role", role)); used_roles.add(role)
+                    elif pn in NAME_SCALARS:
+                        req.append((pn, "scalar", NAME_SCALARS[pn]))
+                    else:
+                        ok = False
+                        break
+                else:
+                    if role is not None:
+                        opt_arr.append((pn, role)); used_roles.add(role)
+                    elif pn in NAME_SCALARS and prm.default is not None and type(prm.default) is not type(NAME_SCALARS[pn]):
+                        pass
+                    elif pn in NAME_SCALARS:
+                        opt_sc.append((pn, NAME_SCALARS[pn]))
+            if not ok:
+                skipped.append(q)
+                continue
+            patterns = [()]
+            for pn, role in opt_arr:
+                patterns.append((pn,))
+            if len(opt_arr) > 1:
+                patterns.append(tuple(pn for pn, _ in opt_arr))
+            if opt_sc:
+                patterns.append(tuple(pn for pn, _ in opt_arr) + ("+scalars",))
+            for pat in patterns:
+                roles = [r for _, k, r in req if k == "role"] + [r for pn, r in opt_arr if pn in pat]
+
+                def call(*arrs, _fn=fn, _req=req, _opt=[(pn, r) for pn, r in opt_arr if pn in pat],
+                         _sc=(opt_sc if "+scalars" in pat else [])):
+                    it = iter(arrs)
+                    kw = {}
+                    for pn, k, v in _req:
+                        kw[pn] = next(it) if k == "role" else v
+                    for pn, r in _opt:
+                        kw[pn] = next(it)
+                    for pn, v in _sc:
+                        kw[pn] = v
+                    r = _fn(**kw)
+                    return list(r) if isinstance(r, types.GeneratorType) else r
+                key = "auto:%s(%s)" % (q, ",".join(pat))
+                out.append((key, q, "".join(roles), call))
+    return out, skipped
+
+
 _CAT = None
+_AUTO_SKIPPED = []
 
 
 def catalog():
+    """the hand-written calls plus the calls synthesised from the signatures"""
     global _CAT
     if _CAT is None:
-        _CAT = _catalog()
+        hand = [c for c in _catalog() if c is not None]
+        auto, skipped = _auto_catalog()
+        _AUTO_SKIPPED[:] = skipped
+        _CAT = hand + auto
     return _CAT
 
 
@@ -593,7 +729,7 @@ ROLE_DTYPES = {
     "M": ["bool"],
     "L": ["int32", "int32", "int64", "int64", "uint8"],
 }
-LAYOUTS = ["C", "F", "view", "ro"]
+LAYOUTS = ["C", "F", "view", "ro", "rowview"]
 
 _INTS = ["int32", "int64", "int64", "uint8", "uint32"]
 _FLTS = ["float64", "float64", "float32"]
@@ -654,7 +790,12 @@ for _r, (_g, _d) in SMALL.items():
 ROLES = "IBMLpqr" + "".join(sorted(SMALL))
 
 
-def _content(role, shape, rng):
+# value classes of intensity images: they steer the internal branches of the functions (clamping of pixels
+# below max/256, degenerate constant images, NaN handling ...)
+VALUE_CLASSES = ["smooth", "quantised", "zerobg", "constant", "nan", "tinyrange"]
+
+
+def _content(role, shape, rng, vclass=None):
     H, W = shape
     if role in SMALL:
         return SMALL[role][0]()
@@ -664,9 +805,26 @@ def _content(role, shape, rng):
         import scipy.ndimage as nd
         a = nd.gaussian_filter(rng.rand(H, W), 1.0)
         a = (a - a.min()) / max(a.max() - a.min(), 1e-9)
-        # few-level quantisation on part of the image: ties for the tie-breaking generators
         q = rng.rand() < 0.5
-        return np.round(a * 8) / 8 if q else a
+        if vclass is None:
+            vclass = "quantised" if q else "smooth"
+        if vclass == "quantised":     # few levels: ties for the tie-breaking generators
+            return np.round(a * 8) / 8
+        if vclass == "zerobg":        # exact-zero background, values far below max/256, bright blobs
+            b = np.where(a > 0.55, a, 0.0)
+            b[(a > 0.4) & (a <= 0.55)] = 1e-4
+            b[H // 2, W // 2] = 1.0
+            return b
+        if vclass == "constant":
+            return np.full((H, W), 0.25)
+        if vclass == "nan":
+            b = a.copy()
+            b[0, 0] = np.nan
+            b[H // 2, W // 3] = np.nan
+            return b
+        if vclass == "tinyrange":     # dynamic range below 256
+            return 0.5 + a / 512.0
+        return a
     if role == "B":
         a = rng.rand(H, W) < 0.55
         a[H // 3:H // 3 + 4, 1:W - 1] = True
@@ -687,7 +845,7 @@ def _content(role, shape, rng):
 def _cast(role, a, dt):
     if role == "I":
         if dt in ("uint8", "int32", "int64"):
-            return np.round(a * 200).astype(dt)
+            return np.round(np.nan_to_num(a) * 200).astype(dt)
         return a.astype(dt)
     return a.astype(dt)
 
@@ -714,6 +872,11 @@ def _slice_view(a):
 def _layout(a, lay):
     if lay == "C":
         return np.ascontiguousarray(a), None
+    if lay == "rowview":          # C-contiguous view: a block of rows of a larger array the caller owns
+        big = np.zeros((a.shape[0] + 4,) + a.shape[1:], a.dtype)
+        big[...] = 1 if a.dtype == bool else 3
+        big[2:2 + a.shape[0]] = a
+        return big[2:2 + a.shape[0]], big
     if lay == "F":
         return np.asfortranarray(a), None
     if lay == "view":
@@ -731,6 +894,7 @@ def _norm(case):
             case["dt"].setdefault(key, {"I": "float64", "B": "bool", "M": "bool", "L": "int32"}.get(role)
                                   or ROLE_DTYPES[role][0])
             case["lay"].setdefault(key, "C")
+    case.setdefault("vc", {})
     return case
 
 
@@ -743,7 +907,7 @@ def build_pool(case, writable=False, only_keys=None):
             if only_keys is not None and key not in only_keys:
                 continue
             rng = np.random.RandomState((case["seed"] * 128 + si * 64 + ROLES.index(role)) & 0x7FFFFFFF)
-            a = _cast(role, _content(role, shape, rng), case["dt"][key])
+            a = _cast(role, _content(role, shape, rng, case.get("vc", {}).get(key)), case["dt"][key])
             lay = case["lay"][key]
             if writable and lay == "ro":
                 lay = "C"
@@ -1188,12 +1352,16 @@ def _mk_case(ctx, rng, cat, calls=None, length=None, shapes=None):
     shapes = shapes or [[int(rng.randint(11, 18)), int(rng.randint(11, 18))],
                         [int(rng.randint(6, 11))] * 2,           # square (angular_distribution accepts nothing else)
                         [int(rng.randint(3, 6)), int(rng.randint(3, 6))]]
-    dt, lay = {}, {}
+    dt, lay, vc = {}, {}, {}
     for si in range(len(shapes)):
         for role in ROLES:
             key = "%s%d" % (role, si)
             dt[key] = str(rng.choice(ROLE_DTYPES[role]))
             lay[key] = str(rng.choice(LAYOUTS))
+            if role == "I":
+                u = rng.rand()
+                if u < 0.45:
+                    vc[key] = str(rng.choice(["zerobg", "zerobg", "zerobg", "constant", "nan", "tinyrange", "tinyrange"]))
     if calls is None:
         n = length or int(rng.randint(2, 13))
         calls = []
@@ -1213,7 +1381,7 @@ def _mk_case(ctx, rng, cat, calls=None, length=None, shapes=None):
     roles = {c[0]: c[2] for c in cat}
     used = sorted({"%s%d" % (r, si) for key, si in calls for r in roles.get(key, "")})
     return {"used": used, "seed": int(rng.randint(1 << 30)), "scramble": int(rng.randint(1 << 30)), "shapes": shapes,
-            "dt": dt, "lay": lay, "calls": calls,
+            "dt": dt, "lay": lay, "vc": vc, "calls": calls,
             "lazy": side["lazy"] if side else []}
 
 
@@ -1295,7 +1463,7 @@ def generate(ctx):
                 continue
             cases.append(_mk_case(ctx, rng, cat, calls=[[a, 0], [b, 1], [a, 1], [b, 0], [a, 2], [b, 2], [a, 0]]))
             ctx.count("stateful_pairs")
-    for _ in range(ctx.n(200, 2000)):
+    for _ in range(ctx.n(120, 2000)):
         cases.append(_mk_case(ctx, rng, cat))
         ctx.count("random")
     for c in cases:
@@ -1326,39 +1494,89 @@ def _model_witnesses(ctx):
     return pairs, alone
 
 
+def _flagged(side):
+    """functions whose regenerated effect entry violates an obligation, the ones with a direct (own-body)
+    finding first: [(entry, [candidate parameter names])]"""
+    direct, indirect = [], []
+    for e in side["functions"]:
+        bad_inplace = e["inplace"] and not e["exempt"]
+        bad_other = any(k not in (0, 3) for _, k in e["fills"]) or e["unguarded_reads"] or e["entropy"] \
+            or (e["draws_global"] and not e["seed_dominated"])
+        if not (bad_inplace or bad_other):
+            continue
+        pn = sorted({n for _, _, f, n in e["inplace"]}) if bad_inplace else []
+        own = (bad_inplace and any(not f.startswith("passes it to") for _, _, f, _ in e["inplace"])) or \
+            (bad_other and any(s[0].split(".")[0] == e["name"].split(".")[0] and s[3] >= e["line"]
+                               for s in e["fill_sites"]))
+        (direct if own else indirect).append((e, pn))
+    return direct + indirect
+
+
 def _candidate_cases(ctx, rng, cat, side):
-    """a static in-place candidate (function, parameter) of the translator -> histories that call exactly
-    that function with that parameter passed explicitly as a caller-owned array, in every dtype the role
-    is tried in (first: the dtype the library converts to, which asarray/astype(copy=False)/ravel alias) and
-    the layouts {C, Fortran, view}, followed by other calls sharing the same array and the call again"""
+    """the targeted search after a broken effect-table obligation.  For every function whose regenerated
+    effect entry breaks an obligation, every catalog call of that function - the hand-written ones and the
+    ones synthesised from its signature, i.e. every optional-argument pattern (all omitted / each supplied /
+    all supplied) - is run on every layout {C, Fortran, strided view, contiguous row view of a larger parent,
+    read-only} x every value class of the intensity image {smooth, quantised, exact-zero background with
+    values below max/256, constant, NaN, tiny dynamic range}, cycling through the dtypes of the candidate
+    parameter's role (first the dtype the library converts to), followed by calls that share the array and
+    the call again.  The call list is derived from the regenerated table, not from a fixed list."""
     try:
         drives = _drives(ctx)["drives"]
     except Exception as e:
         ctx.note("drive table unavailable: %s" % str(e)[:200])
-        return []
+        drives = {}
+    roles_of = {c[0]: c[2] for c in cat}
+    by_fn = {}
+    for c in cat:
+        by_fn.setdefault(c[1], []).append(c[0])
     cases = []
-    for e in side["functions"]:
-        if not e["inplace"] or e["exempt"]:
+    budget_total = 900
+    flagged = _flagged(side)
+    ctx.count("search.flagged_functions", len(flagged))
+    for e, pnames in flagged:
+        keys = list(by_fn.get(e["name"], []))
+        for k, v in drives.items():
+            if k not in keys and any(f == e["name"] and (not pnames or p in pnames) for f, p, r in v):
+                keys.append(k)
+        if not keys:
+            if e["public"]:
+                ctx.note("catalog gap: no call of %s" % e["name"])
+            ctx.count("search.flagged_without_catalog_call")
             continue
-        for _, line, form, pname in e["inplace"]:
-            hits = [(k, r) for k, v in drives.items() for f, p, r in v if f == e["name"] and p == pname]
-            if not hits:
-                if e["public"]:
-                    ctx.note("catalog gap: no call passes %s(%s=...) a caller-owned array" % (e["name"], pname))
-                ctx.count("search.candidate_without_catalog_call")
-                continue
-            ctx.count("search.candidate_instantiated")
-            for key, role in hits[:6]:
-                sharing = [k for k, v in drives.items() if k != key and any(r == role for _, _, r in v)]
-                for dt in dict.fromkeys(ROLE_DTYPES[role]):
-                    for lay in ("C", "F", "view"):
-                        others = [str(rng.choice(sharing)) for _ in range(2)] if sharing else []
-                        calls = [[key, 0]] + [[o, 0] for o in others] + [[key, 0]]
-                        c = _mk_case(ctx, rng, cat, calls=calls)
-                        c["dt"]["%s0" % role] = dt
-                        c["lay"]["%s0" % role] = lay
-                        cases.append(c)
-    return cases[:600]
+        ctx.count("search.flagged_instantiated")
+        # roles of the candidate parameters (when the drive table knows them)
+        cand_roles = {r for k in keys for f, p, r in drives.get(k, []) if f == e["name"] and p in pnames}
+        per_fn = 0
+        combos = [(lay, vcl) for lay in LAYOUTS for vcl in VALUE_CLASSES]
+        rng.shuffle(combos)
+        n_round = 0
+        while per_fn < 260 and len(cases) < budget_total and n_round < 3:
+            n_round += 1
+            for key in keys:
+                rl = roles_of.get(key, "")
+                sharing = [k for k, v in drives.items() if k != key and any(r in rl for _, _, r in v)] or \
+                          [k for k in roles_of if k != key and set(roles_of[k]) & set(rl)]
+                for lay, vcl in combos:
+                    if per_fn >= 260 or len(cases) >= budget_total:
+                        break
+                    others = [str(rng.choice(sharing)) for _ in range(2)] if sharing else []
+                    c = _mk_case(ctx, rng, cat, calls=[[key, 0]] + [[o, 0] for o in others] + [[key, 0]])
+                    for r in rl:
+                        k0 = "%s0" % r
+                        if lay != "ro" or r in cand_roles or not cand_roles:
+                            c["lay"][k0] = lay
+                        if r == "I":
+                            if vcl in ("smooth", "quantised"):
+                                c["vc"][k0] = vcl
+                            else:
+                                c["vc"][k0] = vcl
+                        if (r in cand_roles or (not cand_roles and r in "IBL")) and n_round == 1:
+                            c["dt"][k0] = ROLE_DTYPES[r][0] if r not in "IBL" else \
+                                {"I": "float64", "B": "bool", "L": "int32"}[r]
+                    cases.append(c)
+                    per_fn += 1
+    return cases
 
 
 def search_cases(ctx, rnd):
